@@ -17,7 +17,7 @@ BUDGET = {"quick": 4000, "thorough": 60000}
 SHRINK = {"quick": False, "thorough": True}
 TIME_LIMIT = {"quick": 150, "thorough": 3300}
 RULE = (
-    "Cases as C01 (tables x pressure pairs x nx 3..400 x time grids x schedules x {single-phase, ideal}) "
+    "Cases as C01 (tables x pressure pairs x nx 3..400 x time grids x schedules x {single-phase, ideal, two-phase on the shipped oil+water tables}) "
     "with time grids biased to non-uniform ones. Every step of every run is checked: residual of the stored new "
     "level in the backward-Euler rows j>=1 (interior and no-flow row) built by the harness from the previous "
     "level, that step's time increment and reservoir.alpha_scaled(previous level), with one mesh constant 1/h^2 "
@@ -52,7 +52,8 @@ EPS = float(np.finfo(float).eps)
 
 def strategy(tier):
     kinds = ("uniform", "quadratic", "geometric", "geometric", "random", "random", "big", "repeat")
-    base = flowcase.sim_case(nx_max=400, max_steps=120, time_kinds=kinds) if tier == "quick" else flowcase.sim_case(nx_max=400, max_steps=800, table_nmax=400, time_kinds=kinds)
+    classes = ("single", "single", "single", "single", "single", "ideal", "ideal", "twophase")
+    base = flowcase.sim_case(nx_max=400, max_steps=120, time_kinds=kinds, classes=classes) if tier == "quick" else flowcase.sim_case(nx_max=400, max_steps=800, table_nmax=400, time_kinds=kinds, classes=classes)
     return st.tuples(base, st.integers(0, 3), st.floats(0.0, 1.0)).map(lambda t: {**t[0], "fault_roll": t[1], "fault_pos": t[2]})
 
 
@@ -155,8 +156,12 @@ def forward_check(res, r, terms, c):
 
 def check_case(case) -> Result:
     res = Result()
-    with Intercept() as ic:
-        r = flowcase.run(case)
+    try:
+        with Intercept() as ic:
+            r = flowcase.run(case)
+    except flowcase.Inadmissible as e:
+        res.skipped = str(e)
+        return res
     res.labels.update(flowcase.labels(case, r))
     if not flowcase.sound_field(r.res, r, res):
         return res
